@@ -129,4 +129,14 @@ def load(contract_dir, only=None):
         with open(p) as f:
             code = compile(f.read(), p, 'exec')
         exec(code, dict(ns))
+    try:
+        from . import props as _P
+        for fid, extra in getattr(_P, 'EXTRA_PROPS', {}).items():
+            it = PLAN.fns.get(fid)
+            if it is not None:
+                for e in extra:
+                    if e not in it.props:
+                        it.props.append(e)
+    except Exception:
+        pass
     return PLAN
